@@ -1,6 +1,7 @@
 //! One module per property: scope definition (alphabet, bounds) and oracle wiring.
 use crate::engine::Prop;
 
+pub mod c01;
 pub mod c02;
 pub mod c03;
 pub mod c04;
@@ -21,7 +22,7 @@ pub mod c19;
 pub mod c20;
 
 pub fn all() -> Vec<&'static dyn Prop> {
-    vec![&c02::C02, &c03::C03, &c04::C04, &c05::C05, &c05::C06, &c07::C07, &c08::C08, &c09::C09, &c10::C10, &c11::C11, &c12::C12, &c13::C13, &c14::C14, &c15::C15, &c16::C16, &c17::C17, &c18::C18, &c19::C19, &c20::C20]
+    vec![&c01::C01, &c02::C02, &c03::C03, &c04::C04, &c05::C05, &c05::C06, &c07::C07, &c08::C08, &c09::C09, &c10::C10, &c11::C11, &c12::C12, &c13::C13, &c14::C14, &c15::C15, &c16::C16, &c17::C17, &c18::C18, &c19::C19, &c20::C20]
 }
 pub fn find(id: &str) -> Option<&'static dyn Prop> {
     all().into_iter().find(|p| p.id() == id)
